@@ -152,6 +152,21 @@ def finish(ctx: Ctx, error: str | None = None) -> int:
         per_rule[i.rule] = per_rule.get(i.rule, 0) + 1
         if per_rule[i.rule] <= 4:
             samples.append({"rule": i.rule, "where": i.where, "instance": i.desc})
+    nr = getattr(ctx.pm, "normalise_report", None) or {}
+    ar = getattr(ctx.pm, "alpha_report", None) or {}
+    normalisation = {
+        "constants_propagated": nr.get("constants", []),
+        "parameters_specialised_to_default": nr.get("specialised_params", []),
+        "helpers_inlined": nr.get("inlined", []),
+        "helpers_not_inlined": nr.get("not_inlined", [])[:20],
+        "helpers_dissolved": nr.get("dissolved", []),
+        "functions_renamed_back": nr.get("renamed_functions", []),
+        "locals_renamed_back": ar.get("renamed_names", 0),
+        "parameters_renamed_back": ar.get("renamed_params", 0),
+    }
+    for sp in nr.get("specialised_params", []):
+        if sp.endswith("[public]"):
+            ctx.assume("new opt-in parameter analysed at its default value (no call site in the package passes it): " + sp)
     ev = {
         "property_id": ctx.prop,
         "tier": ctx.tier,
@@ -176,6 +191,7 @@ def finish(ctx: Ctx, error: str | None = None) -> int:
             "suppressions": ctx.suppressions,
             "not_decided": ctx.not_decided,
             "analysed_root": str(ctx.pm.root),
+            "normalisation": normalisation,
             **ctx.extra,
         },
         "assumptions": ctx.assumptions,
